@@ -429,6 +429,22 @@ Proof.
 Qed.
 Print Assumptions C12_refined_k_distinct_vertices_3d.
 
+(* ---------------------------------------------------------------------------------------------
+   children_tile_parent with the unformalised step as an EXPLICIT hypothesis: if "simplices inside the parent, with pairwise
+   separated interiors, non-degenerate, whose |det| add up to the parent's, cover the parent" (tri_/tet_tiling_principle, the
+   measure-theoretic principle, for an arbitrary predicate Covers), then the children of a triangle, and the eight children
+   of a tetrahedron for each of the three diagonal choices, cover their parent.  Everything but the principle is proved. *)
+Theorem C12_children_tile_parent_given_principle :
+  (forall Covers, tri_tiling_principle Covers -> Covers (map tri_W gen_tri_templates)) /\
+  (forall Covers, tet_tiling_principle Covers -> forall c, In c [0; 1; 2] -> Covers (map tet_W (tet_family c))).
+Proof.
+  split.
+  - intros Covers HP. exact (tri_tiles_cover Covers tri_W gen_tri_templates HP tri_uniform_tiles).
+  - intros Covers HP c Hc. pose proof tet_uniform_tiles as H. rewrite forallb_forall in H.
+    exact (tet_tiles_cover Covers tet_W (tet_family c) HP (H c Hc)).
+Qed.
+Print Assumptions C12_children_tile_parent_given_principle.
+
 (* second-order classes: MeshTri2 / MeshQuad2 / MeshHex2 refine through from_mesh (tags dropped) and Mesh.refined re-creates the
    subdomains with the generic fallback, MeshTet2 (after N1) refines as MeshTet1 carrying the subdomains: in every case the
    index map in force is the position of the children of the linear class (C12_*_children above) *)
